@@ -25,6 +25,7 @@ ASSUMPTIONS = ["pre-emption inside C code cannot occur under the GIL; hook point
                "3.9/3.10: the racing legs are a short thorough-tier confirmation of known finding F10"]
 MIN_NONTRIVIAL = {"quick": 1500, "thorough": 20000}
 REQUIRED_COUNTERS = {"blocked_threads_checked": {"quick": 300, "thorough": 5000},
+                     "blocked_inside_exit_method": {"quick": 50, "thorough": 800},
                      "schedules": {"quick": 1500, "thorough": 20000},
                      "schedules_target_moved": {"quick": 1000, "thorough": 15000},
                      "retries_observed": {"quick": 20, "thorough": 200},
@@ -127,7 +128,16 @@ def blocked_leg(spec, res):
                     lines.append("    " * (ind + 1) + "pass")
                     lines.append("    " * ind + "finally:")
                     ind += 1
-            lines.append("    " * ind + ("L%d()" % (lvl + 1) if lvl + 1 < depth else "PARK()"))
+            if lvl + 1 < depth:
+                lines.append("    " * ind + "L%d()" % (lvl + 1))
+            elif rng.random() < 0.4:
+                # blocked *inside an exit method*; half of the time one defined under another name
+                k += 1
+                lines.append("    " * ind + "with %s(%d):" % (rng.choice(("PEXIT", "PEXIT_ALIAS")), k))
+                lines.append("    " * (ind + 1) + "pass")
+                res.count("blocked_inside_exit_method")
+            else:
+                lines.append("    " * ind + "PARK()")
         src = "\n".join(lines) + "\n"
         run = shadow.Run(case, "running")
         run.p_enterfail = run.p_exitfail = 0.0
@@ -143,7 +153,35 @@ def blocked_leg(spec, res):
             ready.set()
             lock.acquire()
 
-        ns.update(CALLLOG=calllog, PARK=PARK, sys=sys)
+        class PEXIT(object):
+            is_async = False
+
+            def __init__(s, k):
+                s.k = k
+                s.owner = id(sys._getframe(1))
+
+            def __repr__(s):
+                return "<%s k=%d>" % (type(s).__name__, s.k)
+
+            def __enter__(s):
+                run.log.append(("es", s))
+                run.log.append(("ee", s))
+                return s
+
+            def __exit__(s, *e):
+                run.log.append(("xs", s))
+                try:
+                    PARK()
+                finally:
+                    run.log.append(("xe", s))
+
+        class PEXIT_ALIAS(PEXIT):
+            def release(s, *e):
+                return PEXIT.__exit__(s, *e)
+
+            __exit__ = release
+
+        ns.update(CALLLOG=calllog, PARK=PARK, sys=sys, PEXIT=PEXIT, PEXIT_ALIAS=PEXIT_ALIAS)
         code, filename = drive.compile_program(src, "blk")
         exec(code, ns)
         th = threading.Thread(target=ns["L0"])
